@@ -28,7 +28,7 @@ REQUIRED = ["generated_ok", "refused", "range_line", "multi_operand_eq_line", "p
 
 KF_RANGE_TEMPLATE = "C18:range_ports:range_template_two_single_ports_in_one_line"
 TOKENS = ["1", "2", "3", "5", "www", "65535", "1-2", "2-4", "7-7", "21-23", "65534-65535", "",
-          "220", "100-200", "1500"]  # different digit counts: text order != numeric order
+          "220", "99-101", "1500", "8-11"]  # different digit counts: text order != numeric order
 TEMPLATES = [
     ("permit tcp any any", None),
     ("permit udp any any", None),
